@@ -7,7 +7,6 @@
    every history of rows that parse, any length / affiliates / order /
    opening position: a panic of the ledger is
      - an operator overflow, or
-     - the effective-cent unwrap (math.rs:93), or
      - the all-affiliate assert_eq! of set_latest_post_status
        (portfolio_status.rs:100: rounding residue), or
      - a strictly positive / strictly negative constrained quantity
@@ -15,12 +14,14 @@
        ZERO ([strict_site]: underflow).
    Every other site of the modelled core - the GreaterEqualZero constructors,
    division by zero, the registered/ACB assertions, the missing-entry unwraps,
-   the no-buyers assertion, the second NegDecimal conversion - is unreachable
-   under rounding too. *)
+   the no-buyers assertion, and (since the fix "treat a superficial loss that
+   rounds to zero effective cents as no superficial loss") the
+   LessEqualZeroDecimal conversion of the effective-cent value - is
+   unreachable under rounding too. *)
 From Coq Require Import List NArith ZArith QArith Qcanon Bool Lia.
 From ACB Require Import Base.Outcome Base.QcExtra Base.Fit Base.Arith Model.Tx Model.Ledger Model.Sfl
      Model.DeltaList Proofs.Tactics Proofs.FitProps Proofs.C04Inv Proofs.C03Conserve Proofs.C05Sites
-     Proofs.C05NoPanic.
+     Proofs.C05NoPanic Proofs.EffCent.
 Import ListNotations.
 Local Open Scope Qc_scope.
 
@@ -76,12 +77,21 @@ Definition strict_sites : list N :=
 Definition strict_site (s : N) : Prop := In s strict_sites.
 
 Definition pclass (p : panic) : Prop :=
-  p = PanicOverflow \/ p = PanicConstraint Site.eff_cent \/ p = PanicAssert Site.set_latest_all \/
+  p = PanicOverflow \/ p = PanicAssert Site.set_latest_all \/
   exists s, strict_site s /\ p = PanicConstraint s.
+
+(* the effective-cent site (math.rs:93 before the fix, the LessEqualZeroDecimal
+   conversion after it) is in no class *)
+Lemma pclass_not_eff_cent p : pclass p -> p <> PanicConstraint Site.eff_cent.
+Proof.
+  intros [->|[->|(s & Hs & ->)]] E; try discriminate E.
+  inversion E as [Es]. subst s. unfold strict_site, strict_sites in Hs. cbn in Hs.
+  repeat (destruct Hs as [Hs|Hs]; [discriminate Hs|]). exact Hs.
+Qed.
 
 Lemma pc_over : pclass PanicOverflow. Proof. left; reflexivity. Qed.
 Lemma pc_strict s : strict_site s -> pclass (PanicConstraint s).
-Proof. intros H. right; right; right. exists s; auto. Qed.
+Proof. intros H. right; right. exists s; auto. Qed.
 
 (* weakest-precondition style: [wp m Q] - m ends with a value satisfying Q,
    a rejection, or a panic of a listed class *)
@@ -209,7 +219,7 @@ Section Sign.
   Proof.
     intros Hb. unfold set_latest. wstep wp_add. intros t _. wstep wp_sub. intros e _.
     rewrite Hb. cbn [negb]. destruct (negb (Qceqb (s_all v) e)); cbn [wp]; [|exact I].
-    right; right; left; reflexivity.
+    right; left; reflexivity.
   Qed.
 
   Lemma wp_sell_core pre sh aps com rate crate :
@@ -397,8 +407,20 @@ Section Sign.
     - cbn [bind wp]. eexists. split; [reflexivity|]. cbn. auto.
   Qed.
 
-  Lemma wp_eff_cent d : wp (eff_cent A d) (fun _ => True).
-  Proof. unfold eff_cent. wstep wp_sub. intros diff _. destruct (Qcltb _ _); exact I. Qed.
+  Lemma wp_eff_cent d : d <= 0 -> wp (eff_cent A d) (fun c => c <= 0).
+  Proof.
+    intros Hd. unfold eff_cent. wstep wp_sub. intros diff _.
+    destruct (Qcltb _ _); cbn [wp]; [apply round2_nonpos; exact Hd | exact Hd].
+  Qed.
+
+  (* the LessEqualZeroDecimal conversion of the repaired code cannot fail, in
+     any sign-preserving arithmetic *)
+  Lemma wp_eff_cent_site d :
+    d <= 0 -> wp (c <- eff_cent A d ;; lez_unwrap Site.eff_cent c) (fun c => c <= 0).
+  Proof.
+    intros Hd. wstep (wp_eff_cent d Hd). intros c Hc.
+    rewrite (lez_unwrap_nonpos _ _ Hc). exact Hc.
+  Qed.
 
   (* ---- generated SfLA rows ---- *)
   Lemma wp_gen_sfla t loss ps :
@@ -458,16 +480,14 @@ Section Sign.
                           q1 <- pos_unwrap Site.ratio_to_pos q ;;
                           l <- neg_mul_pos A loss q1 ;;
                           c <- eff_cent A l ;;
-                          neg_unwrap Site.eff_cent c) (fun calc => calc < 0)).
+                          lez_unwrap Site.eff_cent c) (fun calc => calc <= 0)).
       { wstep (wp_div (sr_num r) sold Hs0). intros q _.
         wstep (wp_pos_unwrap Site.ratio_to_pos q). { unfold strict_site, strict_sites; cbn; tauto. }
-        intros q1 _. wstep (wp_neg_mul_pos loss q1). intros l _.
-        wstep (wp_eff_cent l). intros c _.
-        unfold neg_unwrap. destruct (Qcltb_spec c 0) as [Hc|_]; cbn [wp]; [exact Hc|].
-        right; left; reflexivity. }
+        intros q1 _. wstep (wp_neg_mul_pos loss q1). intros l Hl.
+        apply (wp_eff_cent_site l (Qclt_le_weak _ _ Hl)). }
       eapply wp_mono; [exact Hcalc|]. cbv beta. intros calc Hcalc0.
       destruct spec as [[sv force]|]; [apply Hspec|].
-      unfold neg_unwrap. destruct (Qcltb_spec calc 0) as [_|Hc]; [|contradiction]. cbn [bind].
+      destruct (Qcltb calc 0); cbn [negb]; [|cbn [wp]; intros info inj E; discriminate E].
       wstep (wp_gen_sfla t calc (sr_portions r) Hps). intros txs Htxs. cbn [wp].
       intros info inj E. inversion E; subst. exact Htxs.
     - cbn [sfl_ratio bind]. destruct spec as [[sv force]|]; [apply Hspec|].
